@@ -8,6 +8,8 @@
 // read calls are made in order with the real OctetsReader / OctetsStream:
 //
 //	bytes=<hex> | <t>:<value>@<Position()> ... | len=<Len()> pos=<Position()>
+//
+// A second line form, `range32 <block>`, covers 2^16 consecutive int32 values with one CRC (see range.go).
 package main
 
 import (
@@ -177,6 +179,9 @@ func readOne(r *iox.OctetsReader, k tok) (out string) {
 }
 
 func exec(c *hx.Ctx, line string) string {
+	if strings.HasPrefix(line, "range32 ") {
+		return execRange(strings.TrimSpace(line[8:]))
+	}
 	toks := splitToks(line)
 	stream := &iox.OctetsStream{}
 	w := iox.NewOctetsWriter(stream)
